@@ -496,28 +496,58 @@ func c08CallCheck(c *Ctx, tag string, cf, listV *ssa.Function) {
 	r.Ob("CALL-CHECK", key+" returns the checker's verdict", t.Pos(cf.Pos()), okd, "the registered checker must be applied to this call expression and its result returned")
 }
 
+// markerStoreEffect: +1 for `x.forstmt = append(x.forstmt, …)`, -1 for `x.forstmt = x.forstmt[:len-1]`, else 0.
+func markerStoreEffect(in ssa.Instruction) int {
+	s, ok := in.(*ssa.Store)
+	if !ok {
+		return 0
+	}
+	fa, ok := s.Addr.(*ssa.FieldAddr)
+	if !ok || fieldName(fa) != "forstmt" {
+		return 0
+	}
+	switch v := s.Val.(type) {
+	case *ssa.Call:
+		if builtinName(v) == "append" {
+			return 1
+		}
+	case *ssa.Slice:
+		if v.High != nil {
+			return -1
+		}
+	}
+	return 0
+}
+
+// markerCallEffect: net effect of calling an in-package helper on the loop-marker stack (depth 1):
+// the helper must contain exactly one marker store for the effect to be attributed.
+func markerCallEffect(cc *ssa.CallCommon, pk *ssa.Package) int {
+	f := cc.StaticCallee()
+	if f == nil || f.Pkg != pk || len(f.Blocks) == 0 {
+		return 0
+	}
+	eff, n := 0, 0
+	allInstrs(f, func(in ssa.Instruction) {
+		if e := markerStoreEffect(in); e != 0 {
+			eff += e
+			n++
+		}
+	})
+	if n == 1 {
+		return eff
+	}
+	return 0
+}
+
+// c08LoopDepth: the loop-marker stack is exactly one deeper while the body is visited and exactly balanced at
+// every success return (pushes/pops directly, through one-level helpers, and through defers).
 func c08LoopDepth(c *Ctx, tag string, fn, listV *ssa.Function) {
 	r, t := c.R, c.T
 	prm := fn.Params[len(fn.Params)-1]
 	var body *ssa.Call
-	var pushes, pops []*ssa.Store
 	allInstrs(fn, func(in ssa.Instruction) {
-		switch x := in.(type) {
-		case *ssa.Call:
-			if x.Call.StaticCallee() == listV && strings.HasPrefix(path(x.Call.Args[len(x.Call.Args)-1]), prm.Name()+".Body") {
-				body = x
-			}
-		case *ssa.Store:
-			if fa, ok := x.Addr.(*ssa.FieldAddr); ok && fieldName(fa) == "forstmt" {
-				switch v := x.Val.(type) {
-				case *ssa.Call:
-					if builtinName(v) == "append" {
-						pushes = append(pushes, x)
-					}
-				case *ssa.Slice:
-					pops = append(pops, x)
-				}
-			}
+		if x, ok := in.(*ssa.Call); ok && x.Call.StaticCallee() == listV && strings.HasPrefix(path(x.Call.Args[len(x.Call.Args)-1]), prm.Name()+".Body") {
+			body = x
 		}
 	})
 	key := tag + "." + fn.Name()
@@ -525,44 +555,90 @@ func c08LoopDepth(c *Ctx, tag string, fn, listV *ssa.Function) {
 		r.Ob("LOOP-DEPTH", key+" marker around body", t.Pos(fn.Pos()), false, "body visit not found")
 		return
 	}
-	okPush := false
-	for _, p := range pushes {
-		if precedes(p, body) {
-			okPush = true
+	// state = (delta+2)*3 + deferredPops, delta in -2..2, deferredPops in 0..2
+	enc := func(delta, def int) int {
+		if delta < -2 {
+			delta = -2
+		}
+		if delta > 2 {
+			delta = 2
+		}
+		if def > 2 {
+			def = 2
+		}
+		return (delta+2)*3 + def
+	}
+	dec := func(st int) (int, int) { return st/3 - 2, st % 3 }
+	ts := &typestate{fn: fn, nstate: 15, init: enc(0, 0)}
+	ts.trans = func(in ssa.Instruction, st int) int {
+		delta, def := dec(st)
+		switch x := in.(type) {
+		case *ssa.Store:
+			delta += markerStoreEffect(in)
+		case *ssa.Call:
+			delta += markerCallEffect(&x.Call, fn.Pkg)
+		case *ssa.Defer:
+			if e := markerCallEffect(&x.Call, fn.Pkg); e < 0 {
+				def += -e
+			} else if mc, ok := x.Call.Value.(*ssa.MakeClosure); ok {
+				allInstrs(mc.Fn.(*ssa.Function), func(in2 ssa.Instruction) {
+					if markerStoreEffect(in2) < 0 {
+						def++
+					}
+				})
+			}
+		case *ssa.RunDefers:
+			delta -= def
+			def = 0
+		}
+		return enc(delta, def)
+	}
+	before := ts.run()
+	describe := func(m uint16) string {
+		var ds []string
+		for st := 0; st < 15; st++ {
+			if m&(1<<uint(st)) != 0 {
+				d, f := dec(st)
+				ds = append(ds, fmt.Sprintf("depth%+d/deferred-pops=%d", d, f))
+			}
+		}
+		return strings.Join(ds, ", ")
+	}
+	// at the body visit: exactly +1
+	okBody := true
+	for st := 0; st < 15; st++ {
+		if before[body]&(1<<uint(st)) != 0 {
+			if d, _ := dec(st); d != 1 {
+				okBody = false
+			}
 		}
 	}
-	r.Ob("LOOP-DEPTH", key+" pushes the loop marker before the body visit", t.Pos(body.Pos()), okPush, "break/continue inside the body are valid only if the marker is on the stack while the body is checked")
-	// pop: on every success return after the body... simplified: a pop store exists that is reachable from the body visit
-	// and no success return is reachable from the body visit while avoiding all pops.
-	okPop := len(pops) > 0
+	r.Ob("LOOP-DEPTH", key+" pushes the loop marker before the body visit", t.Pos(body.Pos()), okBody,
+		"while the body is checked the marker stack must be exactly one deeper than at entry; possible states: "+describe(before[body]))
+	// at every success return: exactly 0
+	okRet := true
+	var where ssa.Instruction
 	allInstrs(fn, func(in ssa.Instruction) {
 		ret, ok := in.(*ssa.Return)
 		if !ok || ret.Block() == fn.Recover || retError(ret) == "nonnil" {
 			return
 		}
-		if reachAvoid(body, ret, func(x ssa.Instruction) bool {
-			for _, p := range pops {
-				if x == ssa.Instruction(p) {
-					return true
+		for st := 0; st < 15; st++ {
+			if before[ret]&(1<<uint(st)) != 0 {
+				if d, _ := dec(st); d != 0 {
+					okRet = false
+					where = ret
 				}
 			}
-			return false
-		}) {
-			okPop = false
 		}
 	})
-	r.Ob("LOOP-DEPTH", key+" pops the loop marker after the body visit", t.Pos(body.Pos()), okPop, "a marker left on the stack makes a break/continue after the loop look valid")
-	// the pop must not precede the body (marker removed too early)
-	early := false
-	for _, p := range pops {
-		if reachAvoid(p, body, func(ssa.Instruction) bool { return false }) {
-			early = true
-		}
+	pos := t.Pos(body.Pos())
+	detail := "balanced at every success return"
+	if where != nil {
+		pos = t.Pos(where.Pos())
+		detail = "at this success return the marker stack is not back at its entry depth (" + describe(before[where]) + "): a marker left behind makes a break/continue after the loop look valid, a marker popped twice makes a valid break/continue of the enclosing loop look invalid"
 	}
-	for _, p := range pushes {
-		_ = p
-	}
-	r.Ob("LOOP-DEPTH", key+" keeps the marker during the body visit", t.Pos(body.Pos()), !early, "no pop may lie between the push and the body visit")
+	r.Ob("LOOP-DEPTH", key+" pops the loop marker after the body visit", pos, okRet, detail)
 }
 
 // c08Registry: FuncsMap and FuncsCheckMap have equal key sets; every checker has a rejecting path or is in the frozen accept-all list.
